@@ -124,7 +124,7 @@ func checkC17(tier string) *Report {
 	}
 	depth := 2
 	if full {
-		depth = 3
+		depth = 4
 	}
 	probes := []Pkt{
 		TransferSpec{"channel-0", denomUSDC, "1000", orb, w0.FwdCCTP(0), []FeeSpec{{To: w0.Fee1.String(), Bps: 100}}}.Pkt(),
